@@ -4,7 +4,7 @@
    re-walking what is already there is a no-op; invariance of the final dump under PERMUTATION of
    the requests is decided by the correspondence run over permutations and partitions, not by a
    theorem) *)
-Require Import Gengo.Base.Str Gengo.Model.Universe Gengo.Proofs.UniverseProofs Gengo.Proofs.CanonProofs.
+Require Import Gengo.Base.Str Gengo.Model.Universe Gengo.Proofs.UniverseProofs Gengo.Proofs.CanonProofs Gengo.Proofs.FaithfulProofs Gengo.Proofs.IndepProofs.
 
 Theorem C11_split_is_sequence : forall v2 p fuel gs1 gs2 w,
   fold_left (add_package v2 p fuel) (gs1 ++ gs2) w =
@@ -51,6 +51,46 @@ Theorem C11_walk_result_independent_of_universe : forall v2 p, named_ok v2 p -> 
   walk v2 p f1 u1 use t = Some (u1', o1) -> walk v2 p f2 u2 use t = Some (u2', o2) -> o1 = o2.
 Proof. exact walk_same_object_everywhere. Qed.
 Print Assumptions C11_walk_result_independent_of_universe.
+
+(* what is recorded for a composite type whose entry is still undecided does not depend on the
+   universe it is walked in (what was loaded before, in which order, in how many calls): same kind,
+   same child objects, same member list *)
+Theorem C11_struct_entry_independent_of_history : forall v2 p, named_ok v2 p -> forall f1 f2 u1 u2 use t tstr fs u1' u2' o1 o2,
+  wf u1 -> canonical v2 u1 -> wf u2 -> canonical v2 u2 -> plookup t p = Some (tstr, SStruct fs) ->
+  Forall (fun fd => keyed v2 p None (snd fd)) fs -> fresh_for v2 u1 use tstr -> fresh_for v2 u2 use tstr ->
+  walk v2 p (S f1) u1 use t = Some (u1', o1) -> walk v2 p (S f2) u2 use t = Some (u2', o2) ->
+  exists e1 e2, nlookup o1 (objs u1') = Some e1 /\ nlookup o2 (objs u2') = Some e2 /\
+                e_kind e1 = e_kind e2 /\ e_members e1 = e_members e2.
+Proof. exact struct_independent. Qed.
+Print Assumptions C11_struct_entry_independent_of_history.
+
+Theorem C11_map_entry_independent_of_history : forall v2 p, named_ok v2 p -> forall f1 f2 u1 u2 use t tstr kt c u1' u2' o1 o2,
+  wf u1 -> canonical v2 u1 -> wf u2 -> canonical v2 u2 -> plookup t p = Some (tstr, SMap kt c) ->
+  keyed v2 p None kt -> keyed v2 p None c -> fresh_for v2 u1 use tstr -> fresh_for v2 u2 use tstr ->
+  walk v2 p (S f1) u1 use t = Some (u1', o1) -> walk v2 p (S f2) u2 use t = Some (u2', o2) ->
+  exists e1 e2, nlookup o1 (objs u1') = Some e1 /\ nlookup o2 (objs u2') = Some e2 /\
+                e_kind e1 = e_kind e2 /\ e_key e1 = e_key e2 /\ e_elem e1 = e_elem e2.
+Proof. exact map_independent. Qed.
+Print Assumptions C11_map_entry_independent_of_history.
+
+Theorem C11_elem_entry_independent_of_history : forall v2 p, named_ok v2 p -> forall f1 f2 u1 u2 use t tstr c sh k u1' u2' o1 o2,
+  wf u1 -> canonical v2 u1 -> wf u2 -> canonical v2 u2 -> plookup t p = Some (tstr, sh) ->
+  (sh = SPtr c /\ k = "Pointer" \/ sh = SSlice c /\ k = "Slice" \/ sh = SChan c /\ k = "Chan")%string ->
+  keyed v2 p None c -> fresh_for v2 u1 use tstr -> fresh_for v2 u2 use tstr ->
+  walk v2 p (S f1) u1 use t = Some (u1', o1) -> walk v2 p (S f2) u2 use t = Some (u2', o2) ->
+  exists e1 e2, nlookup o1 (objs u1') = Some e1 /\ nlookup o2 (objs u2') = Some e2 /\
+                e_kind e1 = e_kind e2 /\ e_elem e1 = e_elem e2.
+Proof. exact elem_independent. Qed.
+Print Assumptions C11_elem_entry_independent_of_history.
+
+Theorem C11_array_entry_independent_of_history : forall v2 p, named_ok v2 p -> forall f1 f2 u1 u2 use t tstr len c u1' u2' o1 o2,
+  wf u1 -> canonical v2 u1 -> wf u2 -> canonical v2 u2 -> plookup t p = Some (tstr, SArray len c) ->
+  keyed v2 p None c -> fresh_for v2 u1 use tstr -> fresh_for v2 u2 use tstr ->
+  walk v2 p (S f1) u1 use t = Some (u1', o1) -> walk v2 p (S f2) u2 use t = Some (u2', o2) ->
+  exists e1 e2, nlookup o1 (objs u1') = Some e1 /\ nlookup o2 (objs u2') = Some e2 /\
+                e_kind e1 = e_kind e2 /\ e_len e1 = e_len e2 /\ e_elem e1 = e_elem e2.
+Proof. exact array_independent. Qed.
+Print Assumptions C11_array_entry_independent_of_history.
 
 Theorem C11_named_ok_decidable : forall v2 p, named_okb v2 p = true -> named_ok v2 p.
 Proof. exact named_okb_sound. Qed.
